@@ -3,10 +3,12 @@ package main
 import (
 	"context"
 	"encoding/json"
+	"errors"
 	"flag"
 	"fmt"
 	"os"
 	"strings"
+	"sync"
 	"time"
 
 	proto "github.com/kubewharf/kubebrain-client/api/v2rpc"
@@ -46,8 +48,9 @@ func cmdStreamBulk(args []string) int {
 			fmt.Println(err)
 			return 2
 		}
-		for _, sz := range [][2]int{{40, 20}, {400, 300}, {400, 301}, {1500, 700}} {
+		for _, sz := range [][3]int{{40, 20, 0}, {400, 300, 0}, {400, 301, 0}, {1500, 700, 0}, {1500, 1400, 1}} {
 			n, first := sz[0], sz[1]
+			withFault := sz[2] == 1
 			names := make([]string, n)
 			for i := range names {
 				names[i] = fmt.Sprintf("/k%05d", i+1)
@@ -114,10 +117,27 @@ func cmdStreamBulk(args []string) int {
 				}
 				return
 			}
+			if withFault {
+				// one transient iterator error in the middle of the first scan attempt of every worker that gets that far
+				faulted := map[int]bool{}
+				firstIter := map[string]int{}
+				var fmu sync.Mutex
+				env.Store.IterFault = func(proc string, iter, nth int) error {
+					fmu.Lock()
+					defer fmu.Unlock()
+					if nth == 1500 && !faulted[iter] && len(faulted) < 1 {
+						faulted[iter] = true
+						_ = firstIter
+						return errors.New("injected transient iterator error")
+					}
+					return nil
+				}
+			}
 			// the whole interval
 			kvs, _, terms, serr, _ := streamRead(env, lo, hi, 0)
+			env.Store.IterFault = nil
 			m, d, f := tally(kvs)
-			ev := gate.Event{"e": "BulkStream", "engine": en, "n": n, "first_partition": first, "how": "whole", "setup_ok": okAll,
+			ev := gate.Event{"e": "BulkStream", "engine": en, "n": n, "first_partition": first, "how": "whole", "iter_fault": withFault, "setup_ok": okAll,
 				"streamed": len(kvs), "missing": m, "dups": d, "foreign": f, "terms": terms, "err": serr, "pieces": 1}
 			bs, _ := json.Marshal(ev)
 			w.Write(append(bs, '\n'))
@@ -135,7 +155,7 @@ func cmdStreamBulk(args []string) int {
 					}
 				}
 				m, d, f = tally(all)
-				ev = gate.Event{"e": "BulkStream", "engine": en, "n": n, "first_partition": first, "how": "pieces", "setup_ok": okAll,
+				ev = gate.Event{"e": "BulkStream", "engine": en, "n": n, "first_partition": first, "how": "pieces", "iter_fault": false, "setup_ok": okAll,
 					"streamed": len(all), "missing": m, "dups": d, "foreign": f, "terms": terms, "err": serr, "pieces": len(pr.PartitionKeys) - 1}
 				bs, _ = json.Marshal(ev)
 				w.Write(append(bs, '\n'))
